@@ -17,6 +17,11 @@ func init() { core.Register(c17{}) }
 
 func (c17) ID() string { return "C17" }
 
+// EvalFeatures names the counters of judged executions.
+func (c17) EvalFeatures() []string {
+	return []string{"commands", "unregistered-name-is-error", "k3-commands"}
+}
+
 func (c17) Cases(tier string) int {
 	if tier == "thorough" {
 		return 40000
